@@ -540,11 +540,13 @@ def main():
     pair = runner.Pair()
     fails = []
     ncorpus = 0
+    known_met = {}          # id of a listed open finding -> programs of this run that showed it
     for name, prog in corpus_programs(pid):
         fs, st = explore_one(pid, pair, prog, True, random.Random(0))
         ncorpus += 1
         for kf in st.get("known") or []:
             log("corpus/%s: open finding %s" % (name, kf[:160]))
+            known_met[kf.split()[0]] = known_met.get(kf.split()[0], 0) + 1
         for f in fs:
             f["seed"] = "corpus/" + name
         fails.extend(fs[:1])
@@ -682,9 +684,15 @@ def main():
                    "discharged": pr["discharged"]}, open(path, "w"), indent=1)
         violations.append((path, "" if any(not s for _, s in violations) else " no-failing-input-found"))
 
+    known_lines = []
     for line in opens:
         if ("property=%s " % pid) in line:
             print("KNOWN-FINDING: " + line[len("open:"):].strip())
+            known_lines.append(line[len("open:"):].strip())
+    for k, v in dist.items():
+        if k.startswith("known-finding:"):
+            fid = k[len("known-finding:"):].split()[0]
+            known_met[fid] = known_met.get(fid, 0) + v
 
     cov = {
         "obligations": len(pr["obligations"]), "discharged": len(pr["discharged"]),
@@ -701,6 +709,10 @@ def main():
         "distribution": dist, "correspondence": props.CORRESPONDENCE[pid], "corpus_programs": ncorpus,
         "skipped_unbuildable": skipped,
     }
+    if known_lines:
+        # listed open findings of this property (KNOWN_FINDINGS.txt): reported, not violations; how often this run met each
+        cov["known_findings"] = [{"entry": l, "programs_showing_it_in_this_run": sum(v for f, v in known_met.items() if (" %s " % f) in (" " + l + " "))}
+                                 for l in known_lines]
     if graph_stats:
         cov["k_graph"] = graph_stats
     if label_stats:
